@@ -1,6 +1,7 @@
 """C14 - TIME, MeasureShift, rests and PlayFrom put events at the documented ticks.
 Theorems: props/C14.v (value of TIME(m:b:t) / TIME(n) and the TIME arm; state and meta event after TimeSignature; the
-time-translation law of exec() for every program without absolute-time commands - loops, Sub, tuplets, chords included;
+time-translation law of exec() for every program without absolute-time commands - loops, Sub, tuplets, chords included,
+and (C14_rsv_*, C14_*_reservations; proofs/ShiftRsvP.v) every reservation command: ramps, v.onTime, x.onNote, x.Random;
 Track::play_from on arbitrary event lists: dropped / kept / re-timed / restored / order before and after the stable sort,
 "latest" = latest in time in the pipeline).
 Correspondence: `compile_core` (model) vs `compile_lex` (implementation) on every source generated here: core-language
@@ -43,7 +44,8 @@ THEOREMS = ["C14_time_formula", "C14_time_ticks", "C14_beat_exact", "C14_beat_de
 DRIVERS = ["core"]
 RULE = ("tick: tb in 48/96/480/960 (or default), n in 2..64, d in 2/4/8/16, shift -2..5, m 1..40, b 1..n+2, t 0..2*beat, five spellings; "
         "shift: 1..6 parts of core-language blocks (notes, rests, numbered notes, l/o/v/q/t, chords, tuplets, Sub, loops) and "
-        "program / controller / tempo / time-signature commands (also inside Sub), rest lengths 1..32, dotted, %n, tied; "
+        "program / controller / tempo / time-signature commands (also inside Sub), controller / bend ramps and the other "
+        "reservation commands (RAMP_CMDS, RSV_CMDS), rest lengths 1..32, dotted, %n, tied; "
         "cut: the same programs on 1..3 tracks, point = every kind of position (between any two parts, exact note starts, "
         "one tick before / after, 0, beyond the end), controller writes inside Sub{} later in time than following ones, "
         "tracks that change their channel (CH(n) between parts, the same controller / the program set on two or three channels "
